@@ -36,7 +36,8 @@ def extract(path):
     """returns {(fn_name, label): expr} for every generic_static_asserts! block, plus bound counts"""
     src = open(path).read()
     # strip // comments (incl. doc comments)
-    src_nc = re.sub(r"//[^\n]*", "", src)
+    src_nc = re.sub(r"/\*.*?\*/", "", src, flags=re.S)
+    src_nc = re.sub(r"//[^\n]*", "", src_nc)
     guards = {}
     for m in re.finditer(r"generic_static_asserts!\s*\(", src_nc):
         i = m.end()
@@ -107,9 +108,10 @@ def main():
             elif have == 0:
                 problems.append(f"components {comp}: static assertion {lab} ({e}) has disappeared (expected {cnt} occurrences)")
             elif have < cnt:
-                # de-duplicated into a shared helper, or dropped from one of several call sites:
-                # recorded, not an alarm (the assertion is still in force somewhere)
-                notes.append(f"static assertion {lab} ({e}) occurs {have} times, expected {cnt}")
+                # dropped from one of several call sites (or de-duplicated into a shared helper, which
+                # cannot be told apart without a call graph): the premises of the theorems are no
+                # longer known to cover every entry point
+                problems.append(f"components {comp}: static assertion {lab} ({e}) occurs {have} times, expected {cnt}")
     for p in problems:
         print("GUARD-PROBLEM", p)
     for p in notes:
